@@ -367,6 +367,8 @@ def _extract_flowed_energy_density(path, prefix, dtr_read, xmin, spatial_extent,
                     if nc % dtr_read == 0:
                         Ysl.append(struct.unpack('d' * tmax * (nn + 1), t))
                 t = fp.read(8 * tmax * (nn + 1))
+                if len(t) < 8 * tmax * (nn + 1):
+                    raise Exception("Incomplete record for trajectory %d in %s" % (nc, ls[rep]))
 
         Ysum.append([])
         for i, item in enumerate(Ysl):
